@@ -364,7 +364,14 @@ def export_case(draw):
     n = draw(st.integers(0, 5))
     items = []
     for _ in range(n):
-        g = draw(st.one_of(st.none(), geometry_spec(small=True, allow_degenerate=True)))
+        if draw(st.integers(0, 2)) == 0:
+            # times whose product with the samplerate lands on or a hair below an integer (k/sr, decimals)
+            k1 = draw(st.integers(0, 200000))
+            a = draw(st.one_of(st.just(k1 / sr), st.sampled_from([0.7, 2.3, 0.29, 0.1, 1.1, 4.35, 0.57])))
+            b = a + draw(st.one_of(st.integers(1, 50000).map(lambda k: k / sr), st.sampled_from([0.7, 2.3, 0.29, 0.1])))
+            g = {"type": "TimeInterval", "coordinates": [a, b]} if draw(st.booleans()) else {"type": "BoundingBox", "coordinates": [a, 100.0, b, 900.0]}
+        else:
+            g = draw(st.one_of(st.none(), geometry_spec(small=True, allow_degenerate=True)))
         if g is not None:
             g = {"type": g["type"], "coordinates": g["coordinates"]}
         items.append({"geometry": g, "tags": [[draw(st.sampled_from(KEYS)), draw(st.sampled_from(["a", "b", "c"]))] for _ in range(draw(st.integers(0, 3)))]})
